@@ -614,6 +614,9 @@ class Interp:
         if isinstance(v, Closure):
             v.attrs[name] = val
             return
+        if isinstance(v, Stale):
+            self.event(kind="store", obj=v.owner or v.label, attr=f"{v.label}.{name}", value=val, where=self.callstack[-1] if self.callstack else "")
+            return
         raise Undecided(f"attribute store on {type(v).__name__}")
 
     # ---- truth
